@@ -45,6 +45,40 @@ type c12Msg struct {
 	DupLevel      int `json:"dup_level,omitempty"`
 	DropHashes    int `json:"drop_hashes,omitempty"`
 	DropFlagBytes int `json:"drop_flag_bytes,omitempty"`
+	// SkipFirst > 0 (with Dense): the first SkipFirst leaves are NOT matched (honest proof of the rest);
+	// ExtraFlags: bytes appended behind the flag string.  Together they place the end of the used flag
+	// bits at a chosen byte length (the largest the format allows, powers of two) with whole unused
+	// bytes behind it.
+	SkipFirst  int    `json:"skip_first,omitempty"`
+	ExtraFlags string `json:"extra_flags_hex,omitempty"`
+}
+
+// c12FlagBits: the number of flag bits of the honest proof of T leaves of which the first skip are
+// not matched (no hashing).
+func c12FlagBits(T, skip int) int {
+	n := 0
+	var rec func(h uint, pos int)
+	width := func(h uint) int { return (T + (1 << h) - 1) >> h }
+	rec = func(h uint, pos int) {
+		n++
+		last := (pos+1)<<h - 1
+		if last >= T {
+			last = T - 1
+		}
+		if h == 0 || last < skip {
+			return
+		}
+		rec(h-1, 2*pos)
+		if 2*pos+1 < width(h-1) {
+			rec(h-1, 2*pos+1)
+		}
+	}
+	h := uint(0)
+	for width(h) > 1 {
+		h++
+	}
+	rec(h, 0)
+	return n
 }
 
 func c12Dense(cas c12Msg) ([]ref.Hash32, []byte) {
@@ -72,6 +106,14 @@ func c12Dense(cas c12Msg) ([]ref.Hash32, []byte) {
 	for i := 0; i < nodes; i++ {
 		flags[i/8] |= 1 << uint(i%8)
 	}
+	if cas.SkipFirst > 0 {
+		matched := make([]bool, T)
+		for i := cas.SkipFirst; i < T; i++ {
+			matched[i] = true
+		}
+		hs, flags = ref.PMTBuild(hs, matched)
+	}
+	flags = append(flags, mc.UnHex(cas.ExtraFlags)...)
 	if cas.DropHashes <= len(hs) {
 		hs = hs[:len(hs)-cas.DropHashes]
 	}
@@ -188,6 +230,9 @@ func c12Eval(w *mc.W, cas c12Msg) {
 		if items[i] != m.Pos || ref.Hash32(*hs[i]) != m.Hash {
 			c.Violate("match-list-differs-from-independent-evaluation", "msg", cas, fmt.Sprintf("match %d: got pos %d want %d", i, items[i], m.Pos))
 			return
+		}
+		if n := len(wantMatches); n > 4096 && i > 1 && i != n/2 && i < n-2 {
+			continue // very long lists: the leaf-under-the-root walk for the first two, the middle and the last two
 		}
 		// independently: the reported hash is a leaf at the reported position under the returned root
 		r, ok := ref.PMTVerifyLeaf(cas.NumTx, hashes, flags, items[i], ref.Hash32(*hs[i]))
@@ -412,6 +457,38 @@ func runC12(c *mc.Ctx) {
 				for _, d := range []int{65535, 65536, 65537} {
 					ds = append(ds, c12Msg{NumTx: uint32(T), Dense: T, DupPairs: d})
 					ds = append(ds, c12Msg{NumTx: uint32(T), Dense: T, DropHashes: d})
+				}
+			}
+		}
+		// the END of the used flag bits placed at chosen byte lengths B: the largest a processable block
+		// can reach, MaxTxnCount/4 and +1 (what a bound computed from the limit comes to), 2^k and 2^k+-1;
+		// honest, and with one / three whole unused bytes behind (which must fail however long the string)
+		{
+			maxT := int(merkleblock.MaxTxnCount)
+			var targets []int
+			for k := uint(5); k <= 19; k++ {
+				if k > 16 && c.Quick() && k != 19 {
+					continue
+				}
+				targets = append(targets, 1<<k-1, 1<<k, 1<<k+1)
+			}
+			targets = append(targets, maxT/4-1, maxT/4, maxT/4+1, (c12FlagBits(maxT, 0)+7)/8)
+			seenTS := map[[2]int]bool{}
+			for _, B := range targets {
+				found := false
+				for T := min(maxT, 4*B+8); T > 4*B-64 && T > 1 && !found; T-- {
+					for skip := 1; skip <= 9 && skip < T; skip++ {
+						if bits := c12FlagBits(T, skip); (bits+7)/8 == B {
+							if !seenTS[[2]int{T, skip}] {
+								seenTS[[2]int{T, skip}] = true
+								for _, ex := range []string{"", "00", "ff", "000000"} {
+									ds = append(ds, c12Msg{NumTx: uint32(T), Dense: T, SkipFirst: skip, ExtraFlags: ex})
+								}
+							}
+							found = true
+							break
+						}
+					}
 				}
 			}
 		}
